@@ -294,7 +294,8 @@ def token_mutated(draw, base):
 
 def candidates(kinds=('repo',), deriv=None):
     win = stmt_window(kinds)
-    pool = [win, win, token_mutated(win), token_mutated(win), programs(), programs(), token_mutated(programs())]
+    pool = [win, win, token_mutated(win), token_mutated(win), programs(), programs(), token_mutated(programs()),
+            T.list_context(), st.lists(T.list_context(), min_size=1, max_size=3).map('\n'.join)]
     if deriv is not None:
         pool.append(deriv)
     return st.one_of(*pool)
